@@ -226,6 +226,11 @@ def _run(ctx):
         else:
             r7.site("share Mint amount ⊢ calculator result (− reserved unit on first provision)")
         wantr = {"or(%s;%s)" % (P_(f, recv_i), P_(f, info, ".sender"))}
+        if rc != wantr and rc <= {P_(f, recv_i), "valid(%s)" % P_(f, recv_i), P_(f, info, ".sender")} and P_(f, info, ".sender") in rc:
+            # the same choice spelled as `match receiver { Some(r) => validate(r)?, None => sender }`
+            if common.option_choice_local(P, ctx.R, f, P_(f, recv_i), rc - {P_(f, info, ".sender")}, {P_(f, info, ".sender")},
+                                          lambda cs_: lemmas.cond_strings(ctx, cs_)) is not None:
+                rc = wantr
         if rc != wantr:
             r7.fail("C05.R7:share-recipient", f.path, span.replace("!x", ""), "share is minted to %s, expected receiver or else the sender" % sorted(rc))
         else:
@@ -258,6 +263,8 @@ def _run(ctx):
             rs = ["|".join(sorted(ctx.roots(x))) for x in c[2]]
             if sup_root in rs and any(r.startswith("C:cosmwasm_std::Uint128::zero@") or r == "K:0" for r in rs):
                 eg = (g, c[1] == "eq")
+        elif c[0] == "cmp" and c[1] == "is_zero" and len(c[2]) == 1 and "|".join(sorted(ctx.roots(c[2][0]))) == sup_root:
+            eg = (g, True)
     if eg is None:
         r6.fail("C05.R6:no-empty-test", f.path, f.span, "the handler does not distinguish the first provision (supply == 0)")
     else:
@@ -291,18 +298,64 @@ def _run(ctx):
             if r6.status == "pass":
                 r6.site("the reserved amount evaluates to the constant 1 in both the mint and the subtraction")
     # ---- R3 per-asset deposit handling ------------------------------------------------------------------------------------
+    # The loop lives in the provide handler, or in one private helper the handler calls once (`collect_deposits(env, &sender,
+    # &mut pools, &deposits)?`): the helper is then analysed with its parameters standing for the call's arguments.
+    f_home, body_home, R_home = f, body, ctx.R
+
+    def deposit_loops(g):
+        out_ = []
+        for l in [l for l in common.loops(P, g) if l["is_loop"]]:
+            ads, kind, src = common.iter_chain(l["iter"])
+            if [a for a, _ in ads] in (["enumerate"], ["zip"]) and kind in ("iter_mut", "iter") and QP in set(ctx.roots(src)):
+                out_.append(l)
+        return out_
+    staged = None
+    if not deposit_loops(f):
+        for hb_, hp_, hfr_, ht_ in P.calls(f):
+            h_ = (P.fn(hp_) or P.fn(generic_path(hp_))) if hp_ and roles.is_workspace_fn(P, hp_) else None
+            if h_ is None or h_.body is None or h_.path == f.path or (h_.j.get("vis") or "Public").startswith("Public") or not h_.path.startswith(f.path.split("::")[0] + "::"):
+                continue
+            hv_ = P.val_call(f, body, hb_)
+            ctx.R = R_home.with_params(h_.path, hv_[4])
+            if deposit_loops(h_) and len([1 for c_, cb_ in P.callers(h_.path) if "::tests::" not in c_.path]) == 1:
+                staged = (h_, hb_, hv_)
+                break
+            ctx.R = R_home
+    if staged is not None:
+        h_, hb_, hv_ = staged
+        pg_ = common.propagated(P, f_home, hb_)
+        if pg_ is None or not common.fail_edge_only_errors(P, f_home, pg_[2])[0]:
+            r3.fail("C05.R3:staged-unchecked", f_home.path, common.span_of_block_term(f_home, hb_), "the result of %s (per-asset deposit handling) is not propagated" % h_.path)
+        else:
+            r3.site("per-asset deposit handling staged into %s, called once, result propagated" % h_.path)
+        f, body = h_, h_.body
+        dep_roots_home = dep_roots
     lps = [l for l in common.loops(P, f) if l["is_loop"]]
     tf = [(b, v, span) for (fn, b, i, adt, var, v, span) in common.message_sites(P) if fn.path == f.path and common.adt_short(adt) == "Cw20ExecuteMsg" and var == "TransferFrom"]
     dl = None
+    zip_form = False
     for l in lps:
         ads, kind, src = common.iter_chain(l["iter"])
         if [a for a, _ in ads] == ["enumerate"] and kind in ("iter_mut", "iter") and QP in set(ctx.roots(src)):
             dl = l
+        elif [a for a, _ in ads] == ["zip"] and kind in ("iter_mut", "iter") and QP in set(ctx.roots(src)):
+            # `for (pool, deposit) in pools.iter_mut().zip(deposits.iter())`: position-wise pairing of the two arrays
+            zv = ads[0][1]
+            try:
+                ads2_, kind2_, src2_ = common.iter_chain(zv[4][1])
+            except Exception:
+                continue
+            if not ads2_ and kind2_ in ("iter", "into_iter") and "|".join(sorted(ctx.roots(src2_))) == dep_roots:
+                dl = l
+                zip_form = True
     if dl is None:
         r3.fail("C05.R3:loop", f.path, f.span, "no loop `for (i, pool) in pools.iter_mut().enumerate()` over all pool assets: unrecognised-idiom")
     else:
         item = dl["item_root"]
         DEP = r"^A:array\[[^\]]*\]\[@%s\.0\]$" % re.escape(item)
+        PEL = item + (".0" if zip_form else ".1")          # the pool element of this iteration
+        if zip_form:
+            DEP = r"^%s\.1$" % re.escape(item)            # the deposit element of the same iteration
         lb = body.reachable_from(dl["some_edge"][1], cut_edges=(dl["none_edge"],))
         if len(tf) != 1 or tf[0][0] not in lb:
             r3.fail("C05.R3:transfer-from-count", f.path, f.span, "expected one TransferFrom construction inside the per-asset loop, found %d" % len(tf))
@@ -310,18 +363,18 @@ def _run(ctx):
             b, v, span = tf[0]
             fld = dict(v[3])
             am = "|".join(sorted(ctx.roots(fld["amount"])))
-            if not re.match(DEP, am) or dep_roots not in am.replace("[@%s.0]" % item, ""):
+            if not re.match(DEP, am) or (not zip_form and dep_roots not in am.replace("[@%s.0]" % item, "")):
                 r3.fail("C05.R3:transfer-from-amount", f.path, span.replace("!x", ""), "TransferFrom amount ⊢ %s, expected deposits[i] of the same loop iteration" % am[:200])
             conds = [c for c in common.control_conditions(P, f, b) if c["sw"] in lb and c["sw"] != dl["switch"]]
             cs = lemmas.cond_strings(ctx, [c for c in conds if not (c["cond"][0] == "discr" and c["allowed"] in (["Continue"], ["Ok"]))])
-            if cs != {"discr(%s.1.info) in ['Token']" % item}:
+            if cs != {"discr(%s.info) in ['Token']" % PEL}:
                 r3.fail("C05.R3:transfer-from-region", f.path, span.replace("!x", ""), "TransferFrom is built under {%s}, expected exactly `pool asset is a cw20 token`" % "; ".join(sorted(cs)))
             # target contract = that pool's token
             tgt = None
             for (fn2, b2, i2, adt2, var2, v2, span2) in common.message_sites(P):
                 if fn2.path == f.path and common.adt_short(adt2) == "WasmMsg" and var2 == "Execute" and "TransferFrom" in "|".join(sorted(ctx.roots(dict(v2[3])["msg"]))):
                     tgt = set(ctx.roots(dict(v2[3])["contract_addr"]))
-            if tgt != {"%s.1.info~Token.contract_addr" % item}:
+            if tgt != {"%s.info~Token.contract_addr" % PEL}:
                 r3.fail("C05.R3:transfer-from-target", f.path, span.replace("!x", ""), "TransferFrom is sent to %s, expected the same pool asset's contract" % sorted(tgt or []))
             if r3.status == "pass":
                 r3.site("cw20 pool asset i: TransferFrom{amount: deposits[i]} to pools[i]'s contract (owner/recipient: C07.R3)")
@@ -333,7 +386,7 @@ def _run(ctx):
             for i, st in enumerate(blk["stmts"]):
                 if st["k"] == "assign" and st["place"]["p"] and st["place"]["p"][0]["k"] == "deref" and "!x" not in st["span"]:
                     base = "|".join(sorted(ctx.roots(P.val_local_in(f, body, (b, i), st["place"]["l"]))))
-                    if base == item + ".1":
+                    if base == PEL:
                         writes.append((b, i, st))
         if len(writes) != 1 or [e.get("name") for e in writes[0][2]["place"]["p"][1:]] != ["amount"]:
             r3.fail("C05.R3:native-adjust", f.path, f.span, "expected exactly one in-place adjustment `pool.amount = ...` in the loop, found %d" % len(writes))
@@ -341,7 +394,7 @@ def _run(ctx):
             b, i, st = writes[0]
             val = P.val_rvalue(f, body, (b, i), st["rv"])
             subs = [x for x in common.walk(val) if x[0] == "call" and isinstance(x[3], str) and generic_path(x[3]).endswith("Uint128::checked_sub")]
-            ok = len(subs) == 1 and set(ctx.roots(subs[0][4][0])) == {item + ".1.amount"} and re.match(DEP, "|".join(sorted(ctx.roots(subs[0][4][1]))))
+            ok = len(subs) == 1 and set(ctx.roots(subs[0][4][0])) == {PEL + ".amount"} and re.match(DEP, "|".join(sorted(ctx.roots(subs[0][4][1]))))
             if ok:
                 pg = common.propagated(P, f, subs[0][2])
                 ok = pg is not None and common.fail_edge_only_errors(P, f, pg[2])[0]
@@ -349,17 +402,20 @@ def _run(ctx):
             cs = lemmas.cond_strings(ctx, [c for c in conds if not (c["cond"][0] == "discr" and c["allowed"] in (["Continue"], ["Ok"]))])
             if not ok:
                 r3.fail("C05.R3:native-adjust-value", f.path, st["span"].replace("!x", ""), "native reserve is adjusted to %s, expected pool.amount - deposits[i] by aborting subtraction" % ctx.show(val, 4))
-            elif cs != {"discr(%s.1.info) in ['NativeToken']" % item}:
+            elif cs != {"discr(%s.info) in ['NativeToken']" % PEL}:
                 r3.fail("C05.R3:native-adjust-region", f.path, st["span"].replace("!x", ""), "native reserve adjusted under {%s}, expected exactly `pool asset is native`" % "; ".join(sorted(cs)))
             else:
                 r3.site("native pool asset i: pools[i].amount -= deposits[i] (aborting), every iteration")
         # the loop precedes the calculator and the slippage guard
-        for bb, p, fr, t in P.calls(f):
+        for bb, p, fr, t in P.calls(f_home):
             if p and roles.is_workspace_fn(P, p) and (generic_path(p) == calc.path or re.search(r"fn\((&'?\w* ?)?std::option::Option<cosmwasm_std::\S*Decimal>", (P.fn(p).sig or ""))):
-                if not body.edge_dominates(dl["none_edge"], bb):
-                    r3.fail("C05.R3:order:%s" % common.last_seg(p), f.path, common.span_of_block_term(f, bb), "%s runs before the native deposits were subtracted from the observed reserves" % common.last_seg(p))
+                after = body_home.edge_dominates(dl["none_edge"], bb) if staged is None else (bb != staged[1] and body_home.block_dominates(staged[1], bb))
+                if not after:
+                    r3.fail("C05.R3:order:%s" % common.last_seg(p), f_home.path, common.span_of_block_term(f_home, bb), "%s runs before the native deposits were subtracted from the observed reserves" % common.last_seg(p))
                 else:
                     r3.site("%s runs after the adjustment loop" % common.last_seg(p))
+    f, body = f_home, body_home
+    ctx.R = R_home
     # ---- R4 deposits -------------------------------------------------------------------------------------------------------------
     depv = common.inline_helpers(P, cv[4][dep_i])
     if depv[0] != "agg" or depv[1] != "array" or len(depv[3]) != 2:
@@ -368,7 +424,20 @@ def _run(ctx):
         for k, (nm, ev) in enumerate(depv[3]):
             finds = [x for x in common.walk(ev) if x[0] == "call" and isinstance(x[3], str) and common.last_seg(x[3]) == "find"]
             maps = [x for x in common.walk(ev) if x[0] == "call" and isinstance(x[3], str) and generic_path(x[3]).endswith("Option::map")]
-            exp = ev[0] == "call" and isinstance(ev[3], str) and common.last_seg(ev[3]) in ("expect", "unwrap")
+            # the deposit is *required*: `.expect(..)` / `.unwrap()` (abort) or `.ok_or(err)?` (error) around the Option
+            inner, required = ev, False
+            for _ in range(6):
+                if inner[0] == "proj" and inner[2] in (("v", "Continue"), ("v", "Ok"), ("v", "Some"), ("f", 0)):
+                    inner = inner[1]
+                elif inner[0] == "call" and isinstance(inner[3], str) and common.is_try_branch(inner[3]):
+                    inner, required = inner[4][0], True
+                elif inner[0] == "call" and isinstance(inner[3], str) and common.last_seg(inner[3]) in ("expect", "unwrap") and re.search(r"option::Option", inner[3]):
+                    inner, required = inner[4][0], True
+                elif inner[0] == "call" and isinstance(inner[3], str) and common.last_seg(inner[3]) in ("ok_or", "ok_or_else") and re.search(r"option::Option", inner[3]):
+                    inner = inner[4][0]
+                else:
+                    break
+            exp = required and len(maps) == 1 and inner == maps[0]
             ok = exp and len(finds) == 1 and len(maps) == 1
             if ok:
                 ads, kind, src = common.iter_chain(finds[0][4][0])
